@@ -264,8 +264,9 @@ Proof. exact rename_needs_null_fixed. Qed.
    which shifts later referent numbers (the recorded dangling-ref class); a NaN payload is normalised in the loaded DOM but invisible in the events.
    Binary: encode_file depends on the DOM only through the written instances (encode_file_shape; fuel sufficient);
    encode_file (decode_file (encode_file dom)) = encode_file (bnorm_dom dom) for properties unknown to the database of the simple column types
-   under any compressor, for databases whose defaults hold no non-null Ref; the fixed point after it is computed on an instance
-   (bin_resave_chain_example), not yet a theorem. *)
+   under any compressor, for databases whose defaults hold no non-null Ref; and the fixed point after it (bin_resave_fixed_point, below):
+   encode_file (decode_file (encode_file out)) = encode_file out for out = decode_file (encode_file dom), under the same kind of hypotheses
+   about the second save (frame_ok for its chunks, sstr_ok for its shared-string table). *)
 From RbxVerif Require Import XmlStructure XmlRoundTrip BinPostorder ResaveFixedPoint.
 From RbxVerif Require BinRoundTrip.
 
@@ -481,4 +482,71 @@ Theorem C07_bin_resave_chain_example :
        | _ => False
        end.
 Proof. exact bin_resave_chain_example. Qed.
+
+(* ---- round 2: the binary fixed point after the first save, as a theorem; the last clause is
+   encode_file (decode_file (encode_file out)) = encode_file out.  The sample discharges every hypothesis (both second-save ones by computation) *)
+Theorem C07_bin_resave_fixed_point :
+  forall (d : db) (ep : enc_params) (cmp : compression) (dom : cdom) (ts : list tree) 
+         (b : bytes) (p : dec_params) (st : ser_state),
+       BinRoundTrip.input_ok dom ts ->
+       BinRoundTrip.names_ok dom ->
+       BinRoundTrip.unknown_props d dom ->
+       ep_order ep [] = [] ->
+       encode_file d ep cmp dom (List.map root ts) = Ok b ->
+       add_instances d ep dom (List.map root ts) = Ok st ->
+       dp_lim p = None ->
+       (forall e : encoded, encode_chunks d ep dom (List.map root ts) = Ok e -> BinRoundTrip.frame_ok p cmp e) ->
+       BinRoundTrip.sstr_ok st ->
+       (forall x : BinRoundTrip.column,
+        In x (BinRoundTrip.cols (ss_types st)) ->
+        fst (snd x) <> NAME ->
+        BinRoundTrip.simple_col (pi_type (snd (snd x))) (BinRoundTrip.col_values ep dom x)) ->
+       BinRename.db_defaults_null d = true ->
+       exists out : cdom,
+         decode_file d p b = Ok out /\
+         BinRoundTrip.same_forest dom ts (BinRoundTrip.lbl st) out /\
+         encode_file d ep cmp out (children_of out 0) =
+         encode_file d ep cmp (bnorm_dom st (List.map root ts) dom) (List.map root ts) /\
+         (forall b2 : bytes,
+          encode_file d ep cmp out (children_of out 0) = Ok b2 ->
+          (forall e2 : encoded,
+           encode_chunks d ep out (children_of out 0) = Ok e2 -> BinRoundTrip.frame_ok p cmp e2) ->
+          (forall st2 : ser_state,
+           add_instances d ep (bnorm_dom st (List.map root ts) dom) (List.map root ts) = Ok st2 ->
+           BinRoundTrip.sstr_ok st2) ->
+          exists out2 : cdom,
+            decode_file d p b2 = Ok out2 /\ encode_file d ep cmp out2 (children_of out2 0) = Ok b2).
+Proof. exact bin_resave_fixed_point. Qed.
+
+Theorem C07_bin_resave_chunks :
+  forall (d : db) (ep : enc_params) (cmp : compression) (dom : cdom) (ts : list tree) 
+         (b : bytes) (p : dec_params) (st : ser_state),
+       BinRoundTrip.input_ok dom ts ->
+       BinRoundTrip.names_ok dom ->
+       BinRoundTrip.unknown_props d dom ->
+       ep_order ep [] = [] ->
+       encode_file d ep cmp dom (List.map root ts) = Ok b ->
+       add_instances d ep dom (List.map root ts) = Ok st ->
+       dp_lim p = None ->
+       (forall e : encoded, encode_chunks d ep dom (List.map root ts) = Ok e -> BinRoundTrip.frame_ok p cmp e) ->
+       BinRoundTrip.sstr_ok st ->
+       (forall x : BinRoundTrip.column,
+        In x (BinRoundTrip.cols (ss_types st)) ->
+        fst (snd x) <> NAME ->
+        BinRoundTrip.simple_col (pi_type (snd (snd x))) (BinRoundTrip.col_values ep dom x)) ->
+       BinRename.db_defaults_null d = true ->
+       exists out : cdom,
+         decode_file d p b = Ok out /\
+         BinRoundTrip.same_forest dom ts (BinRoundTrip.lbl st) out /\
+         encode_chunks d ep out (children_of out 0) =
+         encode_chunks d ep (bnorm_dom st (List.map root ts) dom) (List.map root ts).
+Proof. exact bin_resave_chunks. Qed.
+
+Theorem C07_bin_resave_fixed_point_sample :
+  exists (out : cdom) (b2 : bytes) (out2 : cdom),
+         decode_file BinFileFacts.db0 (BinFileFacts.dp0 None) BinFileFacts.sample_file = Ok out /\
+         encode_file BinFileFacts.db0 BinFileFacts.ep0 None out (children_of out 0) = Ok b2 /\
+         decode_file BinFileFacts.db0 (BinFileFacts.dp0 None) b2 = Ok out2 /\
+         encode_file BinFileFacts.db0 BinFileFacts.ep0 None out2 (children_of out2 0) = Ok b2.
+Proof. exact bin_resave_fixed_point_sample. Qed.
 
